@@ -78,6 +78,14 @@ type EventDecl struct {
 	Chan   string // "send" / "recv": a channel operation on the channel held in struct field Callee (pkg.Type.field)
 }
 
+// ChanInv: every value sent on the channel satisfies Pred (over v); receivers may rely on it
+type ChanInv struct {
+	Pkg  string
+	Ref  string // like the channel reference of send/recv events: pkg.Type.field, local:<func>.<var>, call:<f>
+	Pred *CExpr
+	Src  string
+}
+
 type TypeInv struct {
 	Pkg     string
 	Type    string
@@ -97,6 +105,7 @@ type ContractDB struct {
 	Monitors map[string]*Monitor      // key: pkgpath + "." + Type
 	Specs    map[string]*SpecFunc     // key: name (global namespace)
 	Events   map[string]*EventDecl
+	ChanInvs []*ChanInv // invariants on the values a channel carries
 	TypeInvs map[string]*TypeInv
 	Consts   []ConstClaim
 	Files    []string
@@ -297,6 +306,17 @@ func (db *ContractDB) LoadFile(path, pkgPath string, assumed bool) error {
 					ev.When = e
 				}
 				db.Events[ev.Name] = ev
+			case "chaninv":
+				// chaninv <channel ref>: <predicate over v>
+				i := strings.Index(rest, ": ")
+				if i < 0 {
+					return errf(l, "chaninv <channel>: <predicate over v>")
+				}
+				e, err := ParseCExpr(strings.TrimSpace(rest[i+2:]))
+				if err != nil {
+					return errf(l, "%v", err)
+				}
+				db.ChanInvs = append(db.ChanInvs, &ChanInv{Pkg: pkgPath, Ref: strings.TrimSpace(rest[:i]), Pred: e, Src: strings.TrimSpace(rest[i+2:])})
 			case "globalinv":
 				c, err := mkClause(l, "globalinv", rest)
 				if err != nil {
